@@ -35,6 +35,46 @@ pub fn exec(line: &str) -> String {
             },
             None => "bad-request".to_string(),
         },
+        ["numcmp", a, b] => match (parse_num_tok(a), parse_num_tok(b)) {
+            (Some(x), Some(y)) => {
+                let o = x.cmp(&y);
+                if (o == std::cmp::Ordering::Equal) != (x == y) { return "cmp/eq mismatch".to_string(); }
+                if x.partial_cmp(&y) != Some(o) { return "cmp/partial_cmp mismatch".to_string(); }
+                show_ord(o).to_string()
+            }
+            _ => "bad-request".to_string(),
+        },
+        ["numview", a] => match parse_num_tok(a) {
+            Some(x) => format!(
+                "{} {} {:016x}",
+                x.as_i64().map(|v| v.to_string()).unwrap_or("none".into()),
+                x.as_u64().map(|v| v.to_string()).unwrap_or("none".into()),
+                x.as_f64().unwrap().to_bits()
+            ),
+            None => "bad-request".to_string(),
+        },
+        // order laws evaluated on the real code alone (the model answers the constant the
+        // theorems guarantee)
+        ["numlaws", a, b, c] => match (parse_num_tok(a), parse_num_tok(b), parse_num_tok(c)) {
+            (Some(x), Some(y), Some(z)) => {
+                use std::cmp::Ordering::*;
+                let v = [x, y, z];
+                for p in &v { if p.cmp(p) != Equal { return format!("not reflexive: {}", show_num(p)); } }
+                for p in &v { for q in &v {
+                    if q.cmp(p) != p.cmp(q).reverse() { return format!("not antisymmetric: {} {}", show_num(p), show_num(q)); }
+                } }
+                for p in &v { for q in &v { for r in &v {
+                    if p.cmp(q) != Greater && q.cmp(r) != Greater && p.cmp(r) == Greater {
+                        return format!("not transitive: {} {} {}", show_num(p), show_num(q), show_num(r));
+                    }
+                    if p.cmp(q) == Equal && q.cmp(r) == Equal && p.cmp(r) != Equal {
+                        return format!("equality not transitive: {} {} {}", show_num(p), show_num(q), show_num(r));
+                    }
+                } } }
+                "ok".to_string()
+            }
+            _ => "bad-request".to_string(),
+        },
         ["enc", v] | ["encspec", v] => match parse_tree(v) {
             Some(v) => format!("ok {}", hex(&v.to_vec())),
             None => "bad-request".to_string(),
@@ -73,7 +113,7 @@ pub fn exec(line: &str) -> String {
             }
             None => "bad-request".to_string(),
         },
-        _ => match crate::ops_access::exec(f.as_slice()) {
+        _ => match crate::ops_access::exec(f.as_slice()).or_else(|| crate::ops_edit::exec(f.as_slice())) {
             Some(r) => r,
             None => "bad-request".to_string(),
         },
